@@ -18,10 +18,6 @@ def validDateTime (v : XmlDateTime) : Prop :=
   validateDate v.year v.month v.day = true ∧
   validateTime v.hour v.minute v.second v.frac = true ∧ validOffset v.offset
 
-private theorem offset_wide {o : Option Int} (h : validOffset o) :
-    ∀ x, o = some x → -6000 < x ∧ x < 6000 := by
-  intro x hx; have := h x hx; omega
-
 private theorem toNat_of_nonneg {a : Int} (h : 0 ≤ a) : a = ((a.toNat : Nat) : Int) := by omega
 
 /-- **format_parse (date)**: for every environment, every valid `XmlDate`
@@ -34,7 +30,7 @@ theorem date_format_parse (e : Env) (v : XmlDate) (h : validDate v) :
   simp only at hv ho
   obtain ⟨hm1, hm2, hd1, hd2⟩ := validateDate_bounds _ _ _ hv
   rw [toNat_of_nonneg (a := month) (by omega), toNat_of_nonneg (a := day) (by omega)] at hv ⊢
-  exact date_roundtrip_nat e year _ _ o (by omega) (by omega) (offset_wide ho) hv
+  exact date_roundtrip_nat e year _ _ o (by omega) (by omega) ho hv
 
 /-- **format_parse (time)**: likewise for `XmlTime`, including `24:00:00`,
 fractional seconds printed with 3, 6 or 9 digits, and every offset form. -/
@@ -46,7 +42,7 @@ theorem time_format_parse (e : Env) (v : XmlTime) (h : validTime v) :
   obtain ⟨b1, b2, b3, b4, b5, b6, b7, b8⟩ := validateTime_bounds _ _ _ _ hv
   rw [toNat_of_nonneg b1, toNat_of_nonneg b3, toNat_of_nonneg b5, toNat_of_nonneg b7] at hv ⊢
   exact time_roundtrip_nat e _ _ _ _ o (by omega) (by omega) (by omega) (by omega)
-    (offset_wide ho) hv
+    ho hv
 
 /-- **format_parse (dateTime)** -/
 theorem datetime_format_parse (e : Env) (v : XmlDateTime) (h : validDateTime v) :
@@ -59,7 +55,7 @@ theorem datetime_format_parse (e : Env) (v : XmlDateTime) (h : validDateTime v) 
   rw [toNat_of_nonneg (a := month) (by omega), toNat_of_nonneg (a := day) (by omega)] at hvd ⊢
   rw [toNat_of_nonneg b1, toNat_of_nonneg b3, toNat_of_nonneg b5, toNat_of_nonneg b7] at hvt ⊢
   exact dateTime_roundtrip_nat e year _ _ _ _ _ _ o (by omega) (by omega) (by omega) (by omega)
-    (by omega) (by omega) (offset_wide ho) hvd hvt
+    (by omega) (by omega) ho hvd hvt
 
 /-! concrete non-trivial values satisfy the hypotheses -/
 
